@@ -3,7 +3,7 @@
    are satisfiable.  The published test vectors (FIPS 180-4 / FIPS 202 examples, RFC 4231, RFC 8439, RFC 4648 section 10)
    that validate the reference definitions are in Vectors.v: they are TESTS of the definitions, not theorems. *)
 From Coq Require Import String Arith NArith List Bool.
-From V Require Import C37.Model C37.Keccak C37.Chacha C37.Proofs C37.ShaProofs C37.ExtraProofs.
+From V Require Import C37.Model C37.Keccak C37.Chacha C37.MoreHashes C37.Proofs C37.ShaProofs C37.ExtraProofs.
 Import ListNotations.
 Open Scope N_scope.
 
@@ -162,6 +162,25 @@ Theorem data_hash3_result_shape : forall outlen octet codes h, (outlen <= 200)%n
 Proof. exact data_hash3_shape. Qed.
 Print Assumptions data_hash3_result_shape.
 
+(* ---------------------------------------------------------------- blake2s256, blake2b512, ripemd160 *)
+(* 32, 64, 20 bytes whatever the message; the hex text has twice as many lower-case hex characters *)
+Theorem other_hash_output_length : forall a m,
+  length (xalg_hash a m) = xalg_outlen a /\ Forall (fun b => b < 256) (xalg_hash a m).
+Proof. intros a m. split; [apply xalg_hash_length | apply xalg_hash_bytes]. Qed.
+Print Assumptions other_hash_output_length.
+
+Theorem data_hashx_result_shape : forall a octet codes h,
+  data_hashx a octet codes = Some h -> length h = (2 * xalg_outlen a)%nat /\ forallb is_lower_hex h = true.
+Proof. exact data_hashx_shape. Qed.
+Print Assumptions data_hashx_result_shape.
+
+(* RIPEMD-160's MD4-style padding: whole 64-byte blocks, at most one block more than needed, message then 0x80 first *)
+Theorem ripemd_padding_block_multiple : forall m,
+  (length (rmd_pad m) mod 64 = 0 /\ length m + 9 <= length (rmd_pad m) < length m + 9 + 64)%nat /\
+  firstn (length m + 1) (rmd_pad m) = m ++ [0x80].
+Proof. exact rmd_pad_blocks. Qed.
+Print Assumptions ripemd_padding_block_multiple.
+
 (* ---------------------------------------------------------------- crypto_data_encrypt/6, crypto_data_decrypt/6 *)
 (* for every key, nonce, aad and plaintext: decrypting the ciphertext with the tag gives the plaintext back; the
    ciphertext is as long as the plaintext and the tag has 16 bytes *)
@@ -187,9 +206,10 @@ Print Assumptions aead_wrong_tag_rejected.
 
 Theorem checks_decide_equality_2 :
   (forall n o cs out, check_hash3 n o cs out = true <-> out = data_hash3 n o cs) /\
+  (forall a o cs out, check_hashx a o cs out = true <-> out = data_hashx a o cs) /\
   (forall o key nonce aad plain ct tag,
      check_encrypt o key nonce aad plain ct tag = true <-> data_encrypt o key nonce aad plain = Some (ct, tag)).
-Proof. split; [apply check_hash3_ok | apply check_encrypt_ok]. Qed.
+Proof. split; [apply check_hash3_ok | split; [apply check_hashx_ok | apply check_encrypt_ok]]. Qed.
 Print Assumptions checks_decide_equality_2.
 
 (* ================================================================ non-vacuity of the hypotheses *)
